@@ -227,7 +227,8 @@ def supplement(tier):
 
 
 def interior_diff(case_a, case_b):
-    """max over interior centres of |curl(b/B) (R-Z form) - curl(b/B) (x-y derivative form)| relative."""
+    """Interior centres, R-Z form vs x-y derivative form of curl(b/B), relative to the largest value:
+    (median, 90th percentile, maximum) of |difference| per component."""
     worst = {}
     for comp in "xyz":
         a = case_a.nc["curl_bOverB_" + comp]
@@ -236,11 +237,13 @@ def interior_diff(case_a, case_b):
         myg = int(t["y_boundary_guards"])
         sl = (slice(1, -1), slice(myg + 1, a.shape[1] - myg - 1))
         # the x-y form differentiates hy/Bp, singular at an X-point: cells where the poloidal field is
-        # weak (next to an X-point) keep an O(1) difference at every resolution and are left out
+        # weak (next to an X-point) keep an O(1) difference at every resolution and are left out; a finer
+        # grid has cells closer to that limit, so the maximum is not a convergence measure either
         bp = numpy.abs(t["Bpxy"][sl])
         keep = bp > 0.4 * bp.max()
         sc = numpy.abs(a[sl][keep]).max() + 1e-300
-        worst[comp] = float(numpy.abs(a[sl] - b[sl])[keep].max() / sc)
+        e = (numpy.abs(a[sl] - b[sl]) / sc)[keep]
+        worst[comp] = {"median": float(numpy.median(e)), "p90": float(numpy.percentile(e, 90)), "max": float(e.max())}
     return worst
 
 
@@ -277,20 +280,21 @@ def metamorphic(run):
         run.count(descs[k], nontrivial=True, key="meta:" + gridlab.desc_id(descs[k]))
         run.extra.setdefault("curvature_type_difference", []).append({"resolution_1": d1, "resolution_2": d2})
         for comp in "xyz":
-            if d1[comp] > 1e-6:
-                ratio = d1[comp] / max(d2[comp], 1e-300)
-                # "agree to the discretisation error of the grid": the difference must shrink under
-                # refinement (x is second order; y and z were measured to be first order at
-                # these sizes, see DESIGN.md) and be small
-                run.bump("curvature_type-metamorphic/%s-ratio-%s" % (comp, "ok" if ratio >= 1.4 else "low"))
-                small = d1[comp] < 5e-3 and d2[comp] < 5e-3  # already at the level of the other errors (hy from the FineContour)
-                if not small and (ratio < 1.4 or d2[comp] > 0.05):
-                    run.failure(
-                        "C07/curvature_type-formulations-do-not-converge/%s" % comp,
-                        {"difference_at_(nx,ny)": d1, "difference_at_(2nx,2ny)": d2},
-                        {"desc": descs[k]},
-                        {},
-                    )
+            m1, m2 = d1[comp]["median"], d2[comp]["median"]
+            ratio = m1 / max(m2, 1e-300)
+            # "agree to the discretisation error of the grid": typical (median) difference shrinks under
+            # refinement unless it is already at the level of the other errors (hy from the FineContour),
+            # nine cells out of ten agree to 5% on the finer grid, and no kept cell is off by its own size
+            # (a wrong sign gives 2)
+            small = m1 < 5e-3 and m2 < 5e-3
+            run.bump("curvature_type-metamorphic/%s-median-ratio-%s" % (comp, "small" if small else ("ok" if ratio >= 1.4 else "low")))
+            if (not small and ratio < 1.4) or d2[comp]["p90"] > 0.05 or d2[comp]["max"] > 0.5 or d1[comp]["max"] > 0.5:
+                run.failure(
+                    "C07/curvature_type-formulations-do-not-converge/%s" % comp,
+                    {"difference_at_(nx,ny)": d1, "difference_at_(2nx,2ny)": d2},
+                    {"desc": descs[k]},
+                    {},
+                )
 
 
 def run(run):
